@@ -474,10 +474,12 @@ class MemorizedFunc(Logger):
             return False
 
         # Call the user defined cache validation callback
+        # An entry without (readable) metadata is incomplete, e.g. the process
+        # that computed it was interrupted before storing them: it cannot be
+        # validated and is recomputed.
         metadata = self.store_backend.get_metadata(call_id)
-        if (
-            self.cache_validation_callback is not None
-            and not self.cache_validation_callback(metadata)
+        if self.cache_validation_callback is not None and (
+            not metadata or not self.cache_validation_callback(metadata)
         ):
             self.store_backend.clear_item(call_id)
             return False
